@@ -159,7 +159,7 @@ type Disk struct {
 	nextIno  int
 	seq      int
 	hook     Hook
-	open     int // open file handles
+	open     int            // open file handles
 	inoOpen  map[*inode]int // open handles per inode (C13: unlinked files that still hold space)
 	metaOpen int
 	Hist     *History
